@@ -12,6 +12,7 @@
 (*                           a FRESH instance of f's type scheme per use   *)
 (*   <<"app", x, args>>      application of a function-typed variable      *)
 (*   <<"tuple", args>>  <<"slice", args>>  <<"lam", y, body>>              *)
+(*   <<"fld", e, F>>         field access e.F  (_.F is fun y -> y.F)       *)
 (* Statements:  <<"let", v, e>>   <<"destr", <<v1, .., vn>>, e>>            *)
 (* A function: [name, params |-> <<names>>, stmts, fin].                    *)
 (*                                                                         *)
@@ -27,7 +28,7 @@
 (***************************************************************************)
 EXTENDS FoInfer
 
-SV(k) == <<"svar", k>>
+SV(k) == SVar(k)
 TInt == B("int")  TStr == B("string")  TBool == B("bool")
 Sl(t) == <<"slice", t>>
 Tu(ts) == <<"tuple", ts>>
@@ -103,6 +104,10 @@ GenE(sigs, e, env, st) ==
     [] e[1] = "slice" ->
          LET a == GenArgs(sigs, e[2], env, st)
          IN [t |-> Sl(a.ts[1]), st |-> St(a.st.eqs \o [i \in 1..(Len(a.ts) - 1) |-> <<a.ts[1], a.ts[i + 1]>>], a.st.n)]
+    [] e[1] = "fld" ->                                  \* e.F : a fresh result type and the deferred constraint
+         LET a == GenE(sigs, e[2], env, st)
+             r == TV(a.st.n + 1)
+         IN [t |-> r, st |-> St(Append(a.st.eqs, <<"fld", a.t, e[3], r>>), a.st.n + 1)]
     [] e[1] = "lam" ->
          LET ty == TV(st.n + 1)
              b == GenE(sigs, e[3], Ext(env, e[2], ty), St(st.eqs, st.n + 1))
@@ -143,7 +148,7 @@ ToScheme(order, t) ==
 
 Scheme(sigs, f) ==
   LET pr == Problem(sigs, f)
-      u == Unify(pr.eqs, NoSubst)
+      u == Solve(pr.eqs)
       ps == [i \in 1..Len(pr.params) |-> Apply(u.s, pr.params[i])]
       r == Apply(u.s, pr.res)
       order == Dedup(VarsSeq(ps) \o Vars(r), {})
